@@ -18,6 +18,7 @@ import (
 	"io"
 	"os"
 	"path/filepath"
+	"sync"
 	"testing"
 	"testing/iotest"
 
@@ -194,6 +195,30 @@ func sameMetaInfo(what string, a, b *core.MetaInfo) string {
 	return ""
 }
 
+var (
+	othersOnce sync.Once
+	others     []*core.MetaInfo
+)
+
+// otherMetaInfos returns two fixed metainfos, one with 3 and one with 6000 pieces.
+func otherMetaInfos() []*core.MetaInfo {
+	othersOnce.Do(func() {
+		for _, n := range []int{3, 6000} {
+			data := makeContent(contentRandom, uint64(n), n, 1)
+			d, err := core.NewDigester().FromBytes(data)
+			if err != nil {
+				panic(err)
+			}
+			mi, err := core.NewMetaInfoFromBytes(d, data, 1)
+			if err != nil {
+				panic(err)
+			}
+			others = append(others, mi)
+		}
+	})
+	return others
+}
+
 // roundTrip checks Serialize -> DeserializeMetaInfo and the TorrentMeta wrapper.
 func roundTrip(mi *core.MetaInfo) string {
 	ser, err := mi.Serialize()
@@ -206,6 +231,17 @@ func roundTrip(mi *core.MetaInfo) string {
 	}
 	if msg := sameMetaInfo("round trip: Deserialize(Serialize(mi)) vs mi", back, mi); msg != "" {
 		return msg
+	}
+	// The serialized form belongs to the caller (the store writes it to disk, the tracker sends
+	// it): serializing other metainfo afterwards must not change it.
+	held := append([]byte(nil), ser...)
+	for _, o := range otherMetaInfos() {
+		if _, err := o.Serialize(); err != nil {
+			return fmt.Sprintf("round trip: Serialize of another metainfo failed: %v", err)
+		}
+	}
+	if !bytes.Equal(ser, held) {
+		return fmt.Sprintf("round trip: the bytes Serialize returned changed when other metainfo was serialized afterwards (%d pieces; was %.80q, now %.80q)", mi.NumPieces(), held, ser)
 	}
 	// Same through the stored-metadata wrapper, created the way the store creates it.
 	tm := metadata.NewTorrentMeta(mi)
